@@ -35,6 +35,45 @@ Definition c10w_family (h : Z) (q r : node) : option val :=
   | _, _ => None
   end.
 
+(** sessions *)
+Definition c10w_hq (v : val) : option (Z * node) :=
+  match v with
+  | VL [VZ h; q] => match c10w_node q with Some q => if c10w_dom h q then Some (h, q) else None | None => None end
+  | _ => None
+  end.
+Definition c10w_hqs (v : val) : option (list (Z * node)) :=
+  match v with VL l => opt_all (map c10w_hq l) | _ => None end.
+Definition c10w_str_of (hq : Z * node) : option (list Z) :=
+  match c10w_word (fst hq) (snd hq) with Some w => Some (PathStr w) | None => None end.
+
+Definition c10w_seg (v : val) : option (Z * Z * Z * Z) :=
+  match v with
+  | VL [VZ h; VZ l; VZ start; VZ count] =>
+      if (0 <=? h) && (h <=? 32) && (1 <=? l) && (l <=? h) && (0 <=? start) && (0 <=? count) &&
+         (start + count <=? 2 ^ l) && (count <=? 300000)
+      then Some (h, l, start, count) else None
+  | _ => None
+  end.
+Definition c10w_segs (v : val) : option (list (Z * Z * Z * Z)) :=
+  match v with VL l => opt_all (map c10w_seg l) | _ => None end.
+(** the texts of the prefixes xs of a segment, through the total model of NewPath (prefix x left-aligned in h bits) *)
+Definition c10w_strs (h l : Z) (xs : list Z) : list (option (list Z)) :=
+  map (fun x => match NewPath_full (x * 2 ^ (h - l)) l h with
+                | Some w => Some (PathStr w) | None => None end) xs.
+Definition c10w_seg_strs (stride : Z) (s : Z * Z * Z * Z) : list (option (list Z)) :=
+  match s with (h, l, start, count) => c10w_strs h l (seg_xs start count stride) end.
+Definition c10w_first_strs (segs : list (Z * Z * Z * Z)) (K : Z) : list (option (list Z)) :=
+  match segs with
+  | [] => []
+  | (h, l, start, count) :: _ => c10w_strs h l (seg_xs start (Z.min K count) 1)
+  end.
+Definition c10w_bulk (segs : list (Z * Z * Z * Z)) (K stride : Z) : option (Z * list (list Z)) :=
+  match opt_all (flat_map (c10w_seg_strs stride) segs), opt_all (c10w_first_strs segs K) with
+  | Some ss, Some fs => Some (digest ss, fs)
+  | _, _ => None
+  end.
+Definition c10w_pack_bulk (r : Z * list (list Z)) : val := VL [VZ (fst r); VL (map vzs (snd r))].
+
 Definition ops_C10_wide : list opdef := [
   {| op_name := "bmtree.NewPath/raw";
      op_run := fun a => match a with
@@ -140,5 +179,47 @@ Definition ops_C10_wide : list opdef := [
      op_spec := fun a obs => match a, obs with
        | [VZ h; q], VL [VZ w; VZ w2] =>
            match c10w_node q with Some q => strparse_ok h q w w2 | None => false end
-       | _, _ => false end |}
+       | _, _ => false end |};
+  (* a session: PathStr of every (h, node) of the list, consecutively in one executor; observed: the texts *)
+  {| op_name := "bmtree.PathStr/seq";
+     op_run := fun a => match a with
+       | [l] => match c10w_hqs l with
+           | Some l => match opt_all (map c10w_str_of l) with
+               | Some ss => VL (map vzs ss) | None => VPanic end
+           | None => VBad end
+       | _ => VBad end;
+     op_spec := fun_spec (fun a => match a with
+       | [l] => match c10w_hqs l with
+           | Some l => VL (map (fun hq => vzs (node_str (snd hq))) l)
+           | None => VBad end
+       | _ => VBad end) |};
+  (* a bulk session (compact): every prefix of the segments (h, l, start, count) rendered in order, then the first K again;
+     observed: [digest of the texts of every stride-th prefix of each segment, texts of the first K on the second pass] *)
+  {| op_name := "bmtree.PathStr/bulk";
+     op_run := fun a => match a with
+       | [segs; VZ K; VZ stride] => match c10w_segs segs with
+           | Some segs => if (0 <=? K) && (K <=? 64) && (1 <=? stride) then
+               match c10w_bulk segs K stride with Some r => c10w_pack_bulk r | None => VPanic end
+               else VBad
+           | None => VBad end
+       | _ => VBad end;
+     op_spec := fun_spec (fun a => match a with
+       | [segs; VZ K; VZ stride] => match c10w_segs segs with
+           | Some segs => c10w_pack_bulk (bulk_spec segs K stride)
+           | None => VBad end
+       | _ => VBad end) |};
+  (* G goroutines render the paths of the list in tight loops; observed: per path, the sorted set of
+     DISTINCT texts any call returned (a pure function: exactly one) *)
+  {| op_name := "bmtree.PathStr/concurrent";
+     op_run := fun a => match a with
+       | [l; VZ g; VZ iters] => match c10w_hqs l with
+           | Some l => match opt_all (map c10w_str_of l) with
+               | Some ss => VL (map (fun s => VL [vzs s]) ss) | None => VPanic end
+           | None => VBad end
+       | _ => VBad end;
+     op_spec := fun_spec (fun a => match a with
+       | [l; VZ g; VZ iters] => match c10w_hqs l with
+           | Some l => VL (map (fun hq => VL [vzs (node_str (snd hq))]) l)
+           | None => VBad end
+       | _ => VBad end) |}
 ].
